@@ -101,3 +101,7 @@ pub broadcast proof fn lemma_bflat2(ss: Seq<Seq<u8>>)
     assert(d.drop_last().len() == 0);
     assert(flat(ss) =~= ss[0] + ss[1]);
 }
+
+// R-INCLUDE: an embedded asset; its bytes are not modelled
+#[verifier::external_body]
+pub fn rws_include_bytes() -> (r: &'static [u8]) { &[] }
